@@ -19,6 +19,7 @@
   answer := err | ok <actbits> (name:V|X:cells:glob)*
 -/
 import OpmVerif.Model.FieldProps
+import OpmVerif.Model.FieldPropsTran
 -- driver: prefix=fieldprops handler=OpmVerif.FieldProps.handle
 
 namespace OpmVerif.FieldProps
@@ -281,8 +282,124 @@ partial def runMgr (D : Dims) (A : List Bool) (m : BoxMgr) (ts : List String) (a
   | "ES" :: rest => after (m.step D .endSection) rest
   | _ => "bad-op"
 
+/-! ### transmissibility calculators and SCHEDULE multipliers (`Model/FieldPropsTran.lean`)
+
+    fieldprops.tranI|tranR nx ny nz <A0bits> <A1bits> one hi lo f <tkw>* X <data: one hex per GLOBAL cell>*
+      <tkw> := BOX b*6 | ENDBOX | TDAT dir n cell*n | TOP op n (dir val b*6)*n
+      answer := err | ok (<active>:<op.name,…|->:<hex…|->)*3
+    fieldprops.schedI|schedR nx ny nz <Abits> one (ARR name n cell*n)* K <skw>* END
+      <skw> := BOX b*6 | ENDBOX | DATD name n cell*n        (cell := v<val> | d<val> | e | u<val>)
+      answer := err | ok (name:cells)*
+-/
+open Tran in
+def pTRec : List String → Option (TRec Float × List String)
+  | dir :: v :: rest =>
+    match parseF v, parseBox rest with
+    | some x, some (b, r) => some (⟨dir.toNat!, x, b⟩, r)
+    | _, _ => none
+  | _ => none
+
+open Tran in
+partial def parseTKws (ts : List String) (acc : List (TKw Float)) : Option (List (TKw Float) × List String) :=
+  match ts with
+  | "X" :: rest => some (acc.reverse, rest)
+  | "BOX" :: rest =>
+    match parseBox rest with
+    | some (b, r) => parseTKws r (.box b :: acc)
+    | none => none
+  | "ENDBOX" :: rest => parseTKws rest (.endbox :: acc)
+  | "TDAT" :: dir :: n :: rest =>
+    match takeN parseCellF n.toNat! rest with
+    | some (cs, r) => parseTKws r (.data dir.toNat! cs :: acc)
+    | none => none
+  | "TOP" :: op :: n :: rest =>
+    match parseOp op, recsN pTRec n.toNat! rest with
+    | some o, some (rs, r) => parseTKws r (.oper o rs :: acc)
+    | _, _ => none
+  | _ => none
+
+def opName : ScalarOp → String
+  | .equal => "EQUAL" | .add => "ADD" | .mul => "MUL" | .min => "MIN" | .max => "MAX"
+
+open Tran in
+def showTObs (o : TObs Float) : String :=
+  (if o.active then "1" else "0") ++ ":" ++
+    dash (",".intercalate (o.actions.map fun p => opName p.1 ++ "." ++ p.2)) ++ ":" ++
+    dash (String.join (o.out.map showF))
+
+open Tran in
+def runTranCase (m : Mode) (args : List String) : String :=
+  match args with
+  | nx :: ny :: nz :: a0 :: a1 :: one :: hi :: lo :: f :: rest =>
+    match parseF one, parseF hi, parseF lo, parseF f, parseTKws rest [] with
+    | some one, some hi, some lo, some f, some (ks, dtoks) =>
+      match takeN parseF dtoks.length dtoks with
+      | some (data, _) =>
+        match runTran m ⟨nx.toNat!, ny.toNat!, nz.toNat!⟩ (parseBits a0) (parseBits a1) ⟨one, hi, lo, f⟩ ks data with
+        | none => "err"
+        | some obs => "ok" ++ String.join (obs.map fun o => " " ++ showTObs o)
+      | none => "bad-op"
+    | _, _, _, _, _ => "bad-op"
+  | _ => "bad-op"
+
+def parseCellFU (s : String) : Option (Cell Float) :=
+  match s.toList with
+  | 'u' :: r => (parseF (String.ofList r)).map fun x => ⟨.uninit, x⟩
+  | _ => parseCellF s
+
+partial def parseArrs (ts : List String) (acc : List (String × Arr Float)) :
+    Option (List (String × Arr Float) × List String) :=
+  match ts with
+  | "K" :: rest => some (acc.reverse, rest)
+  | "ARR" :: name :: n :: rest =>
+    match takeN parseCellFU n.toNat! rest with
+    | some (cs, r) => parseArrs r ((name, cs) :: acc)
+    | none => none
+  | _ => none
+
+open Tran in
+partial def parseSKws (ts : List String) (acc : List (SKw Float)) : Option (List (SKw Float)) :=
+  match ts with
+  | "END" :: _ => some acc.reverse
+  | "BOX" :: rest =>
+    match parseBox rest with
+    | some (b, r) => parseSKws r (.box b :: acc)
+    | none => none
+  | "ENDBOX" :: rest => parseSKws rest (.endbox :: acc)
+  | "DATD" :: name :: n :: rest =>
+    match takeN parseCellF n.toNat! rest with
+    | some (cs, r) => parseSKws r (.data name cs :: acc)
+    | none => none
+  | _ => none
+
+open Tran in
+def runSchedCase (m : Mode) (args : List String) : String :=
+  match args with
+  | nx :: ny :: nz :: act :: one :: rest =>
+    let A := parseBits act
+    match parseF one, parseArrs rest [] with
+    | some one, some (arrs, r) =>
+      match parseSKws r [] with
+      | none => "bad-op"
+      | some ks =>
+        -- the protocol carries the ACTIVE cells; the reference works on the global grid
+        let s0 := match m with
+          | .impl => arrs
+          | .ref => arrs.map fun p => (p.1, expand (blank : Cell Float) A p.2)
+        match schedApply m ⟨nx.toNat!, ny.toNat!, nz.toNat!⟩ A one s0 ks with
+        | none => "err"
+        | some s =>
+          "ok" ++ String.join (s.map fun p => " " ++ p.1 ++ ":" ++
+            dash (String.join ((activeView m A p.2).map fun c => String.singleton (stLetter c.st) ++ showF c.v)))
+    | _, _ => "bad-op"
+  | _ => "bad-op"
+
 def handle (op : String) (args : List String) : String :=
   match op with
+  | "fieldprops.tranI" => runTranCase .impl args
+  | "fieldprops.tranR" => runTranCase .ref args
+  | "fieldprops.schedI" => runSchedCase .impl args
+  | "fieldprops.schedR" => runSchedCase .ref args
   | "fieldprops.impl" => runCase .impl args
   | "fieldprops.ref" => runCase .ref args
   | "fieldprops.mgr" =>
